@@ -165,7 +165,7 @@ pub fn accesses(op: &Op) -> Vec<Acc> {
         | Op::Cancel { slot }
         | Op::Elapsed { slot }
         | Op::SetLocalParent { slot } => vec![Read(*slot)],
-        Op::Finish { slot } => vec![Excl(*slot)],
+        Op::Finish { slot, .. } => vec![Excl(*slot)],
         Op::CtxSpan { slot, ctx } => vec![Read(*slot), Excl(*ctx)],
         Op::CtxCurrent { ctx } => vec![Excl(*ctx)],
         Op::RootFromCtx { slot, ctx, .. } => vec![Excl(*slot), Read(*ctx)],
@@ -450,6 +450,18 @@ pub fn exec_op(ctx: &mut ThreadCtx, idx: usize, op: OpRef, o: &Op, inner: &[Op])
             );
             Ret::None
         }
+        Op::ReplaceReporter { cancelable, interval_ns } => {
+            fastrace::set_reporter(
+                Rep {
+                    batches: sh.batches.clone(),
+                    traces: case.sched.reporter_traces,
+                },
+                Config::default()
+                    .cancelable(*cancelable)
+                    .report_interval(Duration::from_nanos(*interval_ns)),
+            );
+            Ret::None
+        }
         Op::Spawn { t } => {
             let t = *t;
             let sh2 = sh.clone();
@@ -602,9 +614,22 @@ pub fn exec_op(ctx: &mut ThreadCtx, idx: usize, op: OpRef, o: &Op, inner: &[Op])
             slot_span(&sh, *slot).add_event(ev);
             Ret::None
         }
-        Op::Finish { slot } => {
+        Op::Finish { slot, unwind } => {
             let v = std::mem::replace(slot_mut(&sh, *slot), SlotV::Empty);
-            drop(v);
+            if *unwind {
+                struct HarnessUnwind;
+                let r = std::panic::catch_unwind(std::panic::AssertUnwindSafe(move || {
+                    let _owned = v;
+                    std::panic::resume_unwind(Box::new(HarnessUnwind));
+                }));
+                if let Err(p) = r {
+                    if !p.is::<HarnessUnwind>() {
+                        std::panic::resume_unwind(p);
+                    }
+                }
+            } else {
+                drop(v);
+            }
             Ret::None
         }
         Op::Cancel { slot } => {
@@ -731,6 +756,8 @@ pub fn exec_op(ctx: &mut ThreadCtx, idx: usize, op: OpRef, o: &Op, inner: &[Op])
             }
             Ret::None
         }
+        // (executed by the scripted body itself: tasks::run_body)
+        Op::BodyPanic => Ret::None,
         Op::UserPanic { kind } => {
             struct UserFail;
             struct FailingName;
